@@ -81,7 +81,10 @@ func IntValue(r *mon.Rand) int64 {
 	return int64(r.U64())
 }
 
-var sampleStrings = []string{"", "a", "aa", "kid-1", "application/cose", "text/plain", "héllo", "日本語", "x y", "a/b", "1", "-1", "4", "33", "99", "255"}
+var sampleStrings = []string{"", "a", "aa", "kid-1", "application/cose", "text/plain", "héllo", "日本語", "x y", "a/b", "1", "-1", "4", "33", "99", "255",
+	// well-formed UTF-8 that naive validity tests trip over: a genuine U+FFFD, 4-byte runes, NUL, BOM, combining marks,
+	// line separators, the last code point, DEL
+	"\ufffd", "a\ufffdb", "\U0001F600", "\x00", "a\x00b", "\ufeffbom", "e\u0301", "\u2028\u2029", "\U0010FFFF", "\x7f", "\u00a0", "\ud7ff\ue000"}
 
 // TextValue draws a valid UTF-8 string.
 func TextValue(r *mon.Rand) string {
